@@ -8,60 +8,53 @@ Definition acceptable (r : run_res) : bool :=
   | _ => true
   end.
 
-Lemma convert_no_fault op cn p : convert false op cn p <> CFault.
+Lemma convert_no_fault b op cn p : convert b op cn p <> CFault.
 Proof.
-  unfold convert. destruct (p_kind p); try discriminate;
+  unfold convert. destruct (p_kind p); try discriminate; cbv zeta;
   repeat match goal with |- context [if ?b then _ else _] => destruct b end; discriminate.
 Qed.
-
-Lemma convert_stop_no_fault b op cn p : p_kind p = KStop -> convert b op cn p <> CFault.
-Proof. unfold convert. intros ->. discriminate. Qed.
 
 Lemma finish_ok c d ch : finish c d ch <> FConvertFault /\ finish c d ch <> FOutOfSegments.
 Proof. unfold finish. destruct (c && d); [split; discriminate|]. destruct ch; split; discriminate. Qed.
 
 Lemma run_func_ok c d segs : forall fn_nil chain,
-  forallb seg_ok segs = true -> ends segs = true ->
+  ends segs = true ->
   run_func c d fn_nil chain segs <> FConvertFault /\ run_func c d fn_nil chain segs <> FOutOfSegments.
 Proof.
-  induction segs as [|s r IH]; intros fn_nil chain Hok He; [discriminate|].
-  simpl in Hok. apply andb_prop in Hok. destruct Hok as [Hs Hr].
+  induction segs as [|s r IH]; intros fn_nil chain He; [discriminate|].
   destruct s as [rec| |inn op cn p frames]; cbn [run_func].
   - apply finish_ok.
   - apply finish_ok.
-  - assert (NF : convert (fn_nil && inn) op cn p <> CFault).
-    { destruct inn.
-      - simpl in Hs. destruct (p_kind p) eqn:K; try discriminate. apply convert_stop_no_fault, K.
-      - rewrite andb_false_r. apply convert_no_fault. }
+  - assert (NF := convert_no_fault (fn_nil && inn) op cn p).
     destruct (convert (fn_nil && inn) op cn p) as [e|out|wr|e|]; try (split; discriminate); [|congruence].
     simpl in He. destruct (Nat.eqb frames 0); [apply finish_ok|]. simpl in He. apply IH; assumption.
 Qed.
 
-(* run_outcome: for every stream of instruction results in which no deferred
-   native call panics while a panic unwinds (except env.Stop), Run returns nil,
+(* run_outcome: for every stream of instruction results (also when a deferred
+   native call panics while a panic unwinds: repaired by 6756254), Run returns nil,
    a PanicError, the error of the output, the context error, the Stop error or
    the error of a go statement, or it panics with the message of a fatalError:
    it never panics with a Go runtime error of its own. *)
 Theorem run_outcome : forall has_ctx done_at_end segs,
-  forallb seg_ok segs = true -> ends segs = true ->
+  ends segs = true ->
   acceptable (vm_run has_ctx done_at_end segs) = true.
 Proof.
-  intros c d segs Hok He. unfold vm_run.
-  destruct (run_func_ok c d segs false [] Hok He) as [A B].
+  intros c d segs He. unfold vm_run.
+  destruct (run_func_ok c d segs false [] He) as [A B].
   destruct (run_func c d false [] segs) as [|[e|]| |e|wr|e| |]; try reflexivity; congruence.
 Qed.
 
 (* the context error is returned only with a context, and Run panics only
    through a fatalError: a direct reading of the classification *)
 Theorem run_outcome_classes : forall has_ctx done_at_end segs,
-  forallb seg_ok segs = true -> ends segs = true ->
+  ends segs = true ->
   match vm_run has_ctx done_at_end segs with
   | RRCtx => has_ctx = true
   | RRHostPanicGo | RRStuck => False
   | _ => True
   end.
 Proof.
-  intros c d segs Hok He. pose proof (run_outcome c d segs Hok He) as H. unfold vm_run in *.
+  intros c d segs He. pose proof (run_outcome c d segs He) as H. unfold vm_run in *.
   assert (G : forall fn ch sg, run_func c d fn ch sg = FCtx -> c = true).
   { intros fn ch sg. revert fn ch. induction sg as [|s r IH]; intros fn ch; [discriminate|].
     destruct s as [rec| |inn op cn p frames]; cbn [run_func].
@@ -74,13 +67,16 @@ Proof.
   eapply G. exact E.
 Qed.
 
-(* without the hypothesis: a panic, then a deferred native function that
-   panics while it unwinds -- convertPanic dereferences vm.fn == nil *)
-Lemma unwinding_native_panic_refutes :
+(* the former refutation: a panic, then a deferred native function that panics
+   while it unwinds (convertPanic dereferenced vm.fn == nil); and a deferred
+   native function that panics when the function returns (the value was wrapped
+   in a fatalError): both are PanicErrors now *)
+Lemma unwinding_native_panic_repaired :
   vm_run false false
     [SgRaise false gen_OpPanic false (mkP KOther [] 0) 1;
-     SgRaise true gen_OpCallNative true (mkP KString [110] 0) 0] = RRHostPanicGo.
-Proof. vm_compute. reflexivity. Qed.
+     SgRaise true gen_OpCallNative true (mkP KString [110] 0) 0] = RRPanicError /\
+  vm_run false false [SgRaise true gen_OpReturn false (mkP KString [110] 0) 0] = RRPanicError.
+Proof. vm_compute. split; reflexivity. Qed.
 
 (* examples of the table: division by zero becomes a PanicError, a Go runtime
    error inside native code a fatalError, env.Fatal passes, a failed write is unwrapped *)
